@@ -197,18 +197,27 @@ class SymbolDB(MutableMapping[str, IReflection]):
 
 		return orders
 
-	def _order_keys_recursive(self, for_module_path: str | None, symbol: IReflection, orders: list[str]) -> None:
+	def _order_keys_recursive(self, for_module_path: str | None, symbol: IReflection, orders: list[str], pendings: list[str] | None = None) -> None:
 		"""参照順にキーの一覧を更新
 
 		Args:
 			for_module_path: 出力モジュールパス
 			symbol: シンボル
 			orders: キーリスト
+			pendings: 展開中の型のキーリスト (default = None)
 		Returns:
 			キーリスト
 		"""
+		pendings = pendings if pendings is not None else []
 		for attr in symbol.attrs:
-			self._order_keys_recursive(for_module_path, attr, orders)
+			self._order_keys_recursive(for_module_path, attr, orders, pendings)
 
-		if not for_module_path or for_module_path == symbol.types.module_path and symbol.types.fullyname not in orders:
-			orders.append(symbol.types.fullyname)
+		key = symbol.types.fullyname
+		if not for_module_path or for_module_path == symbol.types.module_path and key not in orders:
+			# 型自身のエントリーが参照するキー(ジェネリッククラスのテンプレート型等)を先に出力
+			if for_module_path and key in self.__items and key not in pendings:
+				for attr in self.__items[key].attrs:
+					self._order_keys_recursive(for_module_path, attr, orders, [*pendings, key])
+
+			if not for_module_path or key not in orders:
+				orders.append(key)
